@@ -174,7 +174,7 @@ PROPS = {
         assumptions=["the public point of a key is d*G (checked by the harness for every key read)"],
     ),
     "C16": dict(
-        modules=['Gopki.Props.C16', 'Gopki.Props.Tags'], theorems=['C16.C16_general_name_tags', 'C16.C16_convert_kinds', 'C16.C16_convert_kinds_facts', 'C16.C16_admissions_tagging', 'C16.C16_profession_info_shape', 'C16.C16_registration_number_checked', 'Tags.tags_admission'], ops=["ext"],
+        modules=['Gopki.Props.C16', 'Gopki.Props.Tags'], theorems=['C16.C16_general_name_tags', 'C16.C16_convert_kinds', 'C16.C16_convert_kinds_facts', 'C16.C16_admissions_tagging', 'C16.C16_profession_info_shape', 'C16.C16_registration_number_checked', 'C16.C16_admission_roundtrip', 'C16.C16_naming_authority_roundtrip', 'C16.C16_profession_info_roundtrip', 'Tags.tags_admission'], ops=["ext"],
         rule="ext: all 128 key-usage subsets, basicConstraints ca x pathLen in {absent,0,1,2,127,128,255,256,65535} (thorough 0..255), key identifiers hashed and explicit (1/20/200 bytes), every kind with raw !null/!empty/!binary (4 and 900 bytes) and without content, "
              "3000 (thorough 60000) random structured contents of the nine structured kinds, SAN/admission IP boundary and malformed addresses, all 256 subsets of optional admission members x four authority kinds, strings the encoders must reject; "
              "the model must produce the same bytes and the RFC 5280 / CommonPKI decoders must read the configured content back; non-trivial = structured content emitted",
